@@ -74,7 +74,8 @@ def gen_scenario(rng, prof):
     set_names = {}
 
     def action(p):
-        r = rng.random()
+        # the four kinds in proportion to their weights (a profile whose first three weights add up to 1 would otherwise never cancel)
+        r = rng.random() * (prof["p_send"] + prof["p_local"] + prof["p_timer"] + prof["p_cancel"])
         if r < prof["p_send"]:
             return f"S:{rng.choice(tips)}:{rng.choice(datas)}:{rng.choice(procs)}"
         r -= prof["p_send"]
